@@ -237,6 +237,27 @@ class HSym(HBase):
     def fail(self, label, detail=None):
         self.check(False, label, detail)
 
+    def check_possible(self, cond, label, detail=None):
+        """`cond` must be satisfiable together with the path condition (used for 'these two values are not forced to
+        coincide'); a violation is reported when PC and cond is unsat, with a model of the path condition."""
+        if isinstance(cond, SymBool):
+            t = z3.simplify(cond.t)
+            if z3.is_true(t):
+                cond = True
+            elif z3.is_false(t):
+                cond = False
+        if isinstance(cond, (bool, np.bool_)):
+            self.check(bool(cond), label, detail)
+            return
+        r, m = self._query(t)
+        if r == 'sat':
+            self.checks.append((label, 'unsat'))      # obligation discharged
+        elif r == 'unsat':
+            self.checks.append((label, 'sat'))
+            self._candidate(label, detail, self.nice_model())
+        else:
+            self.checks.append((label, 'unknown'))
+
     def check_eq(self, a, b, label, detail=None):
         """a == b, elementwise for arrays (exact over the reals for symbolic entries)."""
         conds = []
@@ -345,6 +366,9 @@ class HConc(HBase):
 
     def fail(self, label, detail=None):
         self.check(False, label, detail)
+
+    def check_possible(self, cond, label, detail=None):
+        self.check(cond, label, detail)
 
     def check_eq(self, a, b, label, detail=None):
         self.check(self._eq(a, b), label, detail)
